@@ -64,7 +64,9 @@ Zones == {"Z", "+02:00", "-11:00", "+05:45"}
 \* instants at the edge of the year range are only written in UTC: their local rendering in another zone leaves years 1..9999
 EdgeInstants == {"year1", "year9999-end"}
 
-SomeEnums == {e \in EnumEntries : e[2] \in {"CryptographicAlgorithm", "ObjectType", "Operation", "ResultReason", "KeyFormatType", "NameType", "State", "RecommendedCurve", "BatchErrorContinuationOption"}}
+CONSTANT Deep     \* BOOLEAN: thorough tier - every enumeration of the registry instead of nine
+SomeEnums == IF Deep THEN EnumEntries
+             ELSE {e \in EnumEntries : e[2] \in {"CryptographicAlgorithm", "ObjectType", "Operation", "ResultReason", "KeyFormatType", "NameType", "State", "RecommendedCurve", "BatchErrorContinuationOption"}}
 EnumValues(e) == {MinVal(e), MaxVal(e)} \cup {v \in ValuesOf(e) : v % 7 = 3} \cup {0, MaxVal(e) + 1, MaxVal(e) + 4096, 2147483647}
 \* enumeration values beyond 2^31 (extensions): as limbs
 EnumHigh == {<<32768, 0>>, <<32768, 1>>, <<65535, 65535>>}
